@@ -9,7 +9,7 @@ from . import common, gen
 warnings.simplefilter("ignore")
 
 NAMES = ["a", "b", "c", "d", "n", "o", "t"]
-WORDS = ["x", "y", "z", "w*", "*", "fo?", "a\\*b", "12"]
+WORDS = ["x", "y", "z", "w*", "*", "fo?", "a\\*b", "12", "\\{x\\}", "%s", "{0}"]
 
 
 # ---------------------------------------------------------------------------------------------
@@ -205,16 +205,17 @@ class EsTreeGen:
         if k < 0.5:
             return self.nm(gen.W(r.choice(WORDS)))
         if k < 0.65:
-            return self.nm(gen.P(r.choice(['"x y"', '"p"', '"a  b\tc"', '""', '"say \\"hi\\""', '"5\\""', '"\\"q"'])))
+            return self.nm(gen.P(r.choice(['"x y"', '"p"', '"{x}"', '"a {} %(b)s"', '"a  b\tc"', '""', '"say \\"hi\\""', '"5\\""', '"\\"q"'])))
         if k < 0.8:
             lo = gen.W(r.choice(["1", "*", "a"]))
             hi = gen.W(r.choice(["9", "*", "m"])) if r.random() < 0.85 else gen.P('"m n"')
             return self.nm(gen.mk("Range", [lo, hi], il=r.random() < 0.5, ih=r.random() < 0.5))
         if k < 0.9:
             return self.nm(gen.mk("Fuzzy", [gen.W(r.choice(["x", "y", "w*"]))],
-                                  num=r.choice([gen.num(5, -1, imp=True), gen.num(1), gen.num(2), gen.num(25, -1)])))
+                                  num=r.choice([gen.num(5, -1, imp=True), gen.num(1), gen.num(2), gen.num(25, -1), gen.num(0),
+                                                gen.num(0, -1)])))
         return self.nm(gen.mk("Proximity", [gen.P(r.choice(['"x y"', '"p q r"']))],
-                              num=r.choice([gen.num(1, imp=True), gen.num(2), gen.num(5)])))
+                              num=r.choice([gen.num(1, imp=True), gen.num(2), gen.num(5), gen.num(0)])))
 
     def field(self, d, base):
         """a SearchField chain addressing something below `base` (tuple), dotted or nested spelling"""
@@ -277,7 +278,8 @@ class EsTreeGen:
         if k < 0.74:
             return self.nm(gen.mk("Group", [self.tree(d - 1, base)]))
         if k < 0.79:
-            return self.nm(gen.mk("Boost", [self.tree(d - 1, base)], num=self.r.choice([gen.num(2), gen.num(15, -1)])))
+            return self.nm(gen.mk("Boost", [self.tree(d - 1, base)], num=self.r.choice([gen.num(2), gen.num(15, -1), gen.num(0), gen.num(1, imp=True),
+                                                                                    gen.num(0, -2), gen.num(1)])))
         return self.field(d, base)
 
 
@@ -564,6 +566,25 @@ def norm_nested_leaves(spec):
                 out.add(".".join(pfx + [k]))
     walk(spec or {}, [])
     return out
+
+
+def refused_in_nested(schema):
+    """a query the builder refuses (OR and AND on the same level) *during* the visit of a nested field group:
+    container:(leaf:a OR leaf:b AND leaf:c) -- used to leave a long-lived builder in the middle of something"""
+    for p, node in walk_schema(schema):
+        if node["kind"] != "nested":
+            continue
+        leafs = [n for n, c in node["children"].items() if c["kind"] in ("text", "keyword")]
+        if not leafs:
+            continue
+        lf = leafs[0]
+        f = lambda v: gen.mk("SearchField", [gen.W(v)], name=lf)
+        body = gen.mk("OrOperation", [f("a"), gen.mk("AndOperation", [f("b"), f("c")])])
+        t = gen.mk("SearchField", [gen.mk("FieldGroup", [body])], name=p[-1])
+        for name in reversed(p[:-1]):
+            t = gen.mk("SearchField", [gen.mk("FieldGroup", [t])], name=name)
+        return common.normalize(t)
+    return None
 
 
 def norm_nested_spec(spec):
